@@ -152,6 +152,7 @@ theorem specStep_nonacq (redis : Bool) (ttl wait : Nat) (st : SpecSt) (c : SCmd)
     split <;> simp [tagTwoHolders]
   | ctxLive => cases hc : c.op <;> simp_all [isAcq]
   | ctxDone => cases hc : c.op <;> simp_all [isAcq]
+  | ctxPlain => cases hc : c.op <;> simp_all [isAcq]
   | other => cases hc : c.op <;> simp_all [isAcq]
 
 theorem jr_nonacq {p : Redis.Params} {st : SpecSt} {s s' : Redis.State} (j : JR p st s) (c : SCmd) (r : Out) (f : Flag)
@@ -364,8 +365,14 @@ theorem jr_step {p : Redis.Params} {st : SpecSt} {s : Redis.State} (j : JR p st 
     refine ⟨j.now, j.hold, ?_⟩
     simp only [List.mem_append, not_or]
     exact ⟨j.clean, observeViol_clean _ _ _ _ _⟩
+  | cancelCtx i =>
+    have hspec : ∀ r, (specStep true p.ttl p.wait st ⟨.unknown, i, 0⟩ r f) = st := by
+      intro r; cases r <;> simp [specStep, isAcq]
+    simp only [Redis.exec, ofRedis, hspec]
+    exact j
 
 /-- the spec run over the Redis model's own replay -/
+-- (a cancelled acquiring context changes neither the model state nor the spec's book)
 def specReplayRedis (p : Redis.Params) : SpecSt → Redis.State → List Redis.Cmd → List Flag → SpecSt
   | st, _, [], _ => st
   | st, s, c :: cs, fs =>
